@@ -386,9 +386,6 @@ def mon_c09_down(sc, obs):
                     return (f"op #{st['n']} {op}: object {j} is not an operand of {i} and is untouched", "changed", None)
             if after[i] != {**after[i], **before[i]}:
                 return (f"op #{st['n']} {op}: downward does not change the operator's own bounds", "changed", None)
-            if len(set(ops)) != len(ops):
-                prev = after
-                continue
             for g, y in before[i].items():
                 xs = [before[j].get(tuple(g[s] for s in m)) for j, m in zip(ops, maps)]
                 if any(x is None for x in xs):
